@@ -63,8 +63,18 @@ def _twin_part(run, tier):
     for dev in ("evo", "fluent"):
         progs += [p for p in targeted.worklist_programs(dev) if "trough" in p["id"] or "pby" in p["id"] or "partition" in p["id"]]
         progs += targeted.permutation_programs(dev, 3)
+        # mode names that are not modes: the transfer is refused and nothing is pipetted (C18.mode)
+        progs += [p for p in targeted.reject_programs(dev) if "mode" in p["id"]]
     for i in range(60 if q else 1500):
         dev = "evo" if i % 2 == 0 else "fluent"
+        if i % 6 == 0:
+            bad = programs.worklist_program(r, f"C18/badmode{i}", dev, 2, maxunits=30, wlmax=30, comps=False, small=False,
+                                            weights={"transfer": 1, "distribute": 0, "aspirate": 0, "dispense": 0, "add": 0, "remove": 0},
+                                            transfer_kw={"nmax": 4})
+            for o in bad["ops"]:
+                if o["op"] == "transfer" and r.random() < 0.6:
+                    o["pby"] = r.choice(["column", "", "Source", "dest", "AUTO", "row", "src", "none"])
+            progs.append(bad)
         progs.append(programs.worklist_program(r, f"C18/t{i}", dev, r.randint(1, 4), maxunits=30, wlmax=r.choice([3, 5, 30]), comps=False, small=False,
                                                weights={"transfer": 1, "distribute": 0, "aspirate": 0, "dispense": 0, "add": 0, "remove": 0},
                                                transfer_kw={"nmax": 8}))
